@@ -7,10 +7,18 @@
 //	           index are folded into the first with f
 //	Keep       no middleware: every event is kept
 //
+// For every Merge merger the body of f is read as well (gen_merge_fns, and coq/Gen/EventMergers.json for the engine):
+//
+//	MfAdd [fields]  the body is exactly a sequence of additions `a.F += b.F` (scalar) and loops
+//	                `for k, v := range b.F { [_, ok := a.F[k]; if !ok { a.F[k] = v; continue }] a.F[k] += v }` (map)
+//	                followed by `return a, nil`
+//	MfOther         anything else (early return, condition, replacement by key, ...)
+//
 // Fails closed on any list element or middleware it cannot resolve.
 package main
 
 import (
+	"encoding/json"
 	"fmt"
 	"go/ast"
 	"go/parser"
@@ -58,13 +66,23 @@ func singleReturn(fd *ast.FuncDecl) ast.Expr {
 	return r.Results[0]
 }
 
+// the function literal handed to the last withEventMerge seen by mwKind
+var lastMergeFn *ast.FuncLit
+
 // middleware kind of one middleware expression
 func mwKind(e ast.Expr, depth int) string {
-	name, _ := callName(e)
+	name, c := callName(e)
 	switch name {
 	case "withUniqueEventOverwrite":
 		return "EmOverwrite"
 	case "withEventMerge":
+		lastMergeFn = nil
+		if len(c.Args) == 1 {
+			lastMergeFn, _ = c.Args[0].(*ast.FuncLit)
+		}
+		if lastMergeFn == nil {
+			die("withEventMerge: the merge function is not a function literal")
+		}
 		return "EmMerge"
 	case "":
 		die("middleware is not a call")
@@ -123,6 +141,181 @@ func resolve(e ast.Expr) (string, string) {
 	return mergerOf(rc, name)
 }
 
+type field struct {
+	Name string `json:"name"`
+	Kind string `json:"kind"` // scalar | map
+}
+
+type mergerOut struct {
+	Tag      string  `json:"tag"`
+	Kind     string  `json:"kind"`
+	Type     string  `json:"type,omitempty"` // payload type of the merge function (as written)
+	Additive bool    `json:"additive"`
+	Fields   []field `json:"fields,omitempty"`
+	Why      string  `json:"why,omitempty"` // why the merge function is not MfAdd
+}
+
+func exprStr(e ast.Expr) string {
+	switch x := e.(type) {
+	case *ast.Ident:
+		return x.Name
+	case *ast.SelectorExpr:
+		return exprStr(x.X) + "." + x.Sel.Name
+	case *ast.StarExpr:
+		return exprStr(x.X)
+	case *ast.ArrayType:
+		return "[]" + exprStr(x.Elt)
+	case *ast.IndexExpr:
+		return exprStr(x.X) + "[" + exprStr(x.Index) + "]"
+	}
+	return "?"
+}
+
+// sel(e) = (receiver, field) of recv.Field
+func sel(e ast.Expr) (string, string) {
+	s, ok := e.(*ast.SelectorExpr)
+	if !ok {
+		return "", ""
+	}
+	id, ok := s.X.(*ast.Ident)
+	if !ok {
+		return "", ""
+	}
+	return id.Name, s.Sel.Name
+}
+
+// idx(e) = (receiver, field, key) of recv.Field[key]
+func idx(e ast.Expr) (string, string, string) {
+	ix, ok := e.(*ast.IndexExpr)
+	if !ok {
+		return "", "", ""
+	}
+	r, f := sel(ix.X)
+	k, ok := ix.Index.(*ast.Ident)
+	if !ok {
+		return "", "", ""
+	}
+	return r, f, k.Name
+}
+
+func isIdent(e ast.Expr, n string) bool { id, ok := e.(*ast.Ident); return ok && id.Name == n }
+
+// map addition loop over b.F; returns the field name or "" with a reason
+func mapLoop(r *ast.RangeStmt, a, b string) (string, string) {
+	rb, f := sel(r.X)
+	k, okk := r.Key.(*ast.Ident)
+	v, okv := r.Value.(*ast.Ident)
+	if rb != b || f == "" || !okk || !okv || r.Tok != token.DEFINE {
+		return "", "range is not `for k, v := range b.F`"
+	}
+	body := r.Body.List
+	addAt := func(st ast.Stmt) bool {
+		as, ok := st.(*ast.AssignStmt)
+		if !ok || as.Tok != token.ADD_ASSIGN || len(as.Lhs) != 1 || len(as.Rhs) != 1 {
+			return false
+		}
+		ra, fa, ka := idx(as.Lhs[0])
+		return ra == a && fa == f && ka == k.Name && isIdent(as.Rhs[0], v.Name)
+	}
+	switch len(body) {
+	case 1:
+		if addAt(body[0]) {
+			return f, ""
+		}
+	case 3:
+		// _, ok := a.F[k]; if !ok { a.F[k] = v; continue }; a.F[k] += v
+		as, ok := body[0].(*ast.AssignStmt)
+		if !ok || as.Tok != token.DEFINE || len(as.Lhs) != 2 || len(as.Rhs) != 1 || !isIdent(as.Lhs[0], "_") {
+			break
+		}
+		okv, isId := as.Lhs[1].(*ast.Ident)
+		ra, fa, ka := idx(as.Rhs[0])
+		if !isId || ra != a || fa != f || ka != k.Name {
+			break
+		}
+		ifs, ok := body[1].(*ast.IfStmt)
+		if !ok || ifs.Init != nil || ifs.Else != nil || len(ifs.Body.List) != 2 {
+			break
+		}
+		un, ok := ifs.Cond.(*ast.UnaryExpr)
+		if !ok || un.Op != token.NOT || !isIdent(un.X, okv.Name) {
+			break
+		}
+		set, ok := ifs.Body.List[0].(*ast.AssignStmt)
+		if !ok || set.Tok != token.ASSIGN || len(set.Lhs) != 1 || len(set.Rhs) != 1 {
+			break
+		}
+		rs, fs, ks := idx(set.Lhs[0])
+		br, ok := ifs.Body.List[1].(*ast.BranchStmt)
+		if rs != a || fs != f || ks != k.Name || !isIdent(set.Rhs[0], v.Name) || !ok || br.Tok != token.CONTINUE {
+			break
+		}
+		if addAt(body[2]) {
+			return f, ""
+		}
+	}
+	return "", "loop over b." + f + " is not a plain addition per key"
+}
+
+// shape of a merge function literal func(a, b *T) (*T, error)
+func mergeShape(fl *ast.FuncLit) (typ string, fields []field, why string) {
+	ps := fl.Type.Params.List
+	var names []string
+	for _, p := range ps {
+		for _, n := range p.Names {
+			names = append(names, n.Name)
+		}
+		typ = exprStr(p.Type)
+	}
+	if len(names) != 2 {
+		return typ, nil, "merge function does not take (a, b)"
+	}
+	a, b := names[0], names[1]
+	body := fl.Body.List
+	if len(body) == 0 {
+		return typ, nil, "empty body"
+	}
+	ret, ok := body[len(body)-1].(*ast.ReturnStmt)
+	if !ok || len(ret.Results) != 2 || !isIdent(ret.Results[0], a) || !isIdent(ret.Results[1], "nil") {
+		return typ, nil, "does not end with `return a, nil`"
+	}
+	seen := map[string]bool{}
+	for _, st := range body[:len(body)-1] {
+		switch x := st.(type) {
+		case *ast.AssignStmt:
+			if x.Tok != token.ADD_ASSIGN || len(x.Lhs) != 1 || len(x.Rhs) != 1 {
+				return typ, nil, "statement is not an addition"
+			}
+			ra, fa := sel(x.Lhs[0])
+			rb, fb := sel(x.Rhs[0])
+			if ra != a || rb != b || fa == "" || fa != fb {
+				return typ, nil, "addition is not a.F += b.F"
+			}
+			if seen[fa] {
+				return typ, nil, "field " + fa + " added twice"
+			}
+			seen[fa] = true
+			fields = append(fields, field{fa, "scalar"})
+		case *ast.RangeStmt:
+			f, w := mapLoop(x, a, b)
+			if f == "" {
+				return typ, nil, w
+			}
+			if seen[f] {
+				return typ, nil, "field " + f + " added twice"
+			}
+			seen[f] = true
+			fields = append(fields, field{f, "map"})
+		default:
+			return typ, nil, fmt.Sprintf("statement %T besides additions", st)
+		}
+	}
+	if len(fields) == 0 {
+		return typ, nil, "no addition"
+	}
+	return typ, fields, ""
+}
+
 func main() {
 	repo := "/repo"
 	if r := os.Getenv("VERIF_REPO"); r != "" {
@@ -170,7 +363,9 @@ func main() {
 		"From ZC Require Import Model.EventMergeTypes.\nOpen Scope string_scope.\n\n" +
 		"(* the mergers of mergeEvents, in list order: event tag, middleware kind *)\nDefinition gen_event_mergers : list (string * em_kind) := [\n")
 	seen := map[string]bool{}
+	var outs []mergerOut
 	for i, el := range list.Elts {
+		lastMergeFn = nil
 		tag, kind := resolve(el)
 		if seen[tag] {
 			die("tag %s has two mergers", tag)
@@ -181,8 +376,54 @@ func main() {
 			sep = ""
 		}
 		fmt.Fprintf(&b, "  (\"%s\", %s)%s\n", tag, kind, sep)
+		mo := mergerOut{Tag: tag, Kind: kind}
+		if kind == "EmMerge" {
+			if lastMergeFn == nil {
+				die("tag %s: merge function not found", tag)
+			}
+			mo.Type, mo.Fields, mo.Why = mergeShape(lastMergeFn)
+			mo.Additive = mo.Why == ""
+		}
+		outs = append(outs, mo)
+	}
+	b.WriteString("].\n\n(* the functions handed to withEventMerge, by tag *)\nDefinition gen_merge_fns : list (string * em_fn) := [\n")
+	var rows []string
+	for _, mo := range outs {
+		if mo.Kind != "EmMerge" {
+			continue
+		}
+		if !mo.Additive {
+			rows = append(rows, fmt.Sprintf("  (\"%s\", MfOther) (* %s *)", mo.Tag, strings.ReplaceAll(mo.Why, "*", "x")))
+			continue
+		}
+		var fs []string
+		for _, f := range mo.Fields {
+			k := "FScalar"
+			if f.Kind == "map" {
+				k = "FMap"
+			}
+			fs = append(fs, fmt.Sprintf("(\"%s\", %s)", f.Name, k))
+		}
+		rows = append(rows, fmt.Sprintf("  (\"%s\", MfAdd [%s])", mo.Tag, strings.Join(fs, "; ")))
+	}
+	// the comment of a row must stay behind the separator
+	for i, r := range rows {
+		sep := ";"
+		if i == len(rows)-1 {
+			sep = ""
+		}
+		if j := strings.Index(r, " (*"); j >= 0 {
+			r = r[:j] + sep + r[j:]
+		} else {
+			r += sep
+		}
+		b.WriteString(r + "\n")
 	}
 	b.WriteString("].\n")
+	js, _ := json.MarshalIndent(outs, "", " ")
+	if err := os.WriteFile(filepath.Join("..", "coq", "Gen", "EventMergers.json"), append(js, '\n'), 0o644); err != nil {
+		die("%v", err)
+	}
 	out := filepath.Join("..", "coq", "Gen", "EventMergers.v")
 	old, _ := os.ReadFile(out)
 	if string(old) == b.String() {
